@@ -21,7 +21,9 @@ documented rewrites; ``Final``: from a shell command to the argv of the process 
    compares with ``Expected``.
 3. (level 3, environment validation) the same expanded command lines are run by the real
    ``/bin/sh -c`` with a compiled argv dumper as tool (compiler shim on PATH, real ``env``, real
-   ``meson --internal exe``), tests by the real ``meson test``; the recorded argv/env must equal the
+   ``meson --internal exe``), tests by the real ``meson test --repeat 3`` (every execution of every test
+   object is compared); families of serialised commands whose argument lists differ only in where the
+   boundaries fall share one build directory (each must run with its own argv); the recorded argv/env must equal the
    argv the spec decoders computed - a disagreement is a MachineryError (the environment model is
    wrong), never a violation.
 """
@@ -968,7 +970,7 @@ def report(chk: Check, v: T.Dict[str, T.Any], case: T.Dict[str, T.Any], ix: T.Di
             detail['env_name'] = env[k - 1][0] if 0 < k <= len(env) else ''
         else:
             s = src[k - 1] if 0 < k <= len(src) else None
-            sig = f'{clause}@{pos}/{v["f"]}:{cls(s) if s is not None else "?"}'
+            sig = f'{clause}@{pos}/{v["f"]}:{cls(s) if s is not None else ("beyond-last" if k > len(src) > 0 else "?")}'
             detail['source_argument'] = s
         detail['args'] = ix.get('args')
     detail['case_id'] = v['id']
